@@ -41,6 +41,22 @@ class _BadReprError(Exception):
         raise Hostile("str of exception")
 
 
+class _BadMeta(type):
+    def __repr__(cls):
+        raise Hostile("repr of class")
+
+    __str__ = __repr__
+
+
+class _MetaBadError(Exception, metaclass=_BadMeta):
+    """An exception whose class cannot be turned into text."""
+
+
+# an exception class without a usable dotted name (as classes made by exec'd code can be)
+_NoQualError = type("NoQualError", (Exception,), {})
+_NoQualError.__module__ = None
+
+
 class _Abort(BaseException):
     """A non-Exception error, like GeneratorExit or SystemExit."""
 
@@ -49,7 +65,7 @@ class _Text(str):
     pass
 
 
-RAISES = ("raise", "raise-bad", "raise-base", "raise-exit", "raise-gen")
+RAISES = ("raise", "raise-bad", "raise-base", "raise-exit", "raise-gen", "raise-noqual", "raise-metabad")
 
 
 def _raise(kind, what, log):
@@ -64,6 +80,10 @@ def _raise(kind, what, log):
         raise SystemExit(3)
     if kind == "raise-gen":
         raise GeneratorExit()
+    if kind == "raise-noqual":
+        raise _NoQualError(what)
+    if kind == "raise-metabad":
+        raise _MetaBadError(what)
     raise AssertionError(kind)
 
 
@@ -138,6 +158,20 @@ class Obj:
         raise KeyError(key)
 
 
+class ObjK(Obj):
+    """An Obj whose __class__ lookup fails too (safe_repr has to describe it)."""
+
+    def __getattribute__(self, name):
+        if name == "__class__":
+            d = object.__getattribute__(self, "__dict__")
+            kind = d["_spec"].get("klass")
+            d["_log"].append("__class__")
+            if kind == "attr":
+                raise AttributeError("__class__")
+            raise Hostile("__class__")
+        return object.__getattribute__(self, name)
+
+
 class _Level:
     """A level-like object: has .name only if told so."""
 
@@ -173,7 +207,7 @@ def build(spec, log):
     if t == "d":
         return {k: build(v, log) for k, v in spec[1]}
     if t == "o":
-        return Obj(spec[1], log)
+        return (ObjK if spec[1].get("klass", "ok") != "ok" else Obj)(spec[1], log)
     if t == "fn":
         inner = spec[1]
 
@@ -192,6 +226,7 @@ def build(spec, log):
         from twisted.python.failure import Failure
         kind = spec[1]
         exc = {"plain": ValueError("boom"), "badstr": _BadStrError(), "badrepr": _BadReprError(),
+               "noqual": _NoQualError("x"), "metabad": _MetaBadError("x"),
                "unicode": ValueError("caf\xe9 ☃ \udcff"), "hostile": Hostile(b"\xff")}[kind]
         try:
             raise exc
@@ -259,7 +294,8 @@ def _logger_frame(exc):
     found = "?"
     while tb is not None:
         fn = tb.tb_frame.f_code.co_filename
-        if fn.endswith(("twisted/logger/_format.py", "twisted/logger/_flatten.py", "twisted/python/log.py")):
+        if fn.endswith(("twisted/logger/_format.py", "twisted/logger/_flatten.py", "twisted/python/log.py",
+                        "twisted/python/reflect.py", "twisted/python/failure.py")):
             found = tb.tb_frame.f_code.co_name
         tb = tb.tb_next
     return found
@@ -345,10 +381,12 @@ def run_case(ctx, case):
                 cause = "log_time-" + _time_class(case["meta"].get("log_time"))
             elif where == "_formatSystem":
                 cause = _system_class(case["meta"])
+            elif where == "safe_str" and isinstance(e, Hostile) and e.args == ("__class__",):
+                cause = "class-lookup-raises"
             else:
                 cause = type(e).__name__
             found.append((f"raises@{where}:{cause}",
-                          f"{name} raised {type(e).__name__}: {e!r:.200}\n" +
+                          f"{name} raised {type(e).__name__}\n" +
                           "".join(traceback.format_tb(e.__traceback__)[-4:])))
             r = ""
         results[name] = r
@@ -407,7 +445,7 @@ def run_case(ctx, case):
         ed["time"] = 0.0
         ed["system"] = build(legacy["sys"], log) if legacy.get("sys") is not None else "-"
         want_str("textFromEventDict", call("textFromEventDict", plog.textFromEventDict, dict(ed)), none_ok=True)
-        if isinstance(ed.get("format"), str):
+        if type(ed.get("format")) is str:
             want_str("_safeFormat", call("_safeFormat", plog._safeFormat, ed["format"], dict(ed)))
         out = io.StringIO()
         call("FileLogObserver.emit", plog.FileLogObserver(out).emit, dict(ed))
@@ -471,7 +509,11 @@ def run_case(ctx, case):
     for h in kinds_raised:
         ctx.count("hostile method raised: " + {"raise": "ordinary exception", "raise-bad": "exception whose own __str__ raises",
                                                "raise-base": "non-Exception BaseException", "raise-exit": "SystemExit",
-                                               "raise-gen": "GeneratorExit"}[h])
+                                               "raise-gen": "GeneratorExit",
+                                               "raise-noqual": "exception whose class has no dotted name",
+                                               "raise-metabad": "exception whose class cannot be printed"}[h])
+    if "__class__" in log:
+        ctx.count("hostile __class__ lookup ran")
     if "raise-bad" in kinds_raised and text.startswith("MESSAGE LOST"):
         ctx.count("'MESSAGE LOST' fallback with an unprintable exception")
     if legacy and (set(kinds_raised) - {"raise"}):
@@ -507,7 +549,9 @@ def _radix(*lists):
 
 
 # behaviours of the meta fields' objects (Exception subclasses only) ...
-_BX = ["ok", "raise", "bytes", "none", "int", "sub", "ok", "raise", "ok", "ok", "ok", "raise-bad"]
+_BX = ["ok", "raise", "bytes", "none", "int", "sub", "ok", "raise", "ok", "ok", "ok", "raise-bad", "raise-noqual",
+       "raise-metabad", "ok", "ok"]
+_KL = ["ok", "ok", "ok", "ok", "ok", "attr", "raise", "raise"]      # what the __class__ lookup does
 # ... and of field values / formats: also errors that are not Exception subclasses
 _B = _BX + ["raise-bad", "raise-base", "raise-exit", "raise-gen", "ok", "ok", "ok"]
 NAMES = ["a", "b", "c"]
@@ -525,8 +569,9 @@ _leaf = st.one_of(
 def _obj(children):
     return st.builds(
         lambda beh, attrs, items, call: ["o", dict(
-            attrs=attrs, items=items, str=beh[0], repr=beh[1], fmt=beh[2], call=call, getattr=beh[3], getitem=beh[4])],
-        _radix(_B, _B, _B, ["default", "raise"], ["default", "raise"]),
+            attrs=attrs, items=items, str=beh[0], repr=beh[1], fmt=beh[2], call=call, getattr=beh[3], getitem=beh[4],
+            klass=beh[5])],
+        _radix(_B, _B, _B, ["default", "raise"], ["default", "raise"], _KL),
         st.dictionaries(st.sampled_from(ATTRS), children, max_size=2),
         st.dictionaries(st.sampled_from(["k", "0", "x"]), children, max_size=1),
         st.one_of(st.sampled_from(["none", "raise"]), children))
@@ -534,8 +579,8 @@ def _obj(children):
 
 _leafobj = st.builds(
     lambda beh: ["o", dict(attrs={}, items={}, str=beh[0], repr=beh[1], fmt=beh[2], call="none",
-                           getattr=beh[3], getitem="default")],
-    _radix(_B, _B, _B, ["default", "raise"]))
+                           getattr=beh[3], getitem="default", klass=beh[4])],
+    _radix(_B, _B, _B, ["default", "raise"], _KL))
 
 
 def _extend(children):
@@ -551,14 +596,14 @@ def _extend(children):
 
 _metaobj = st.builds(
     lambda beh: ["o", dict(attrs={}, items={}, str=beh[0], repr=beh[1], fmt=beh[2], call="none",
-                           getattr=beh[3], getitem="default")],
-    _radix(_BX, _BX, _BX, ["default", "raise"]))
+                           getattr=beh[3], getitem="default", klass=beh[4])],
+    _radix(_BX, _BX, _BX, ["default", "raise"], _KL))
 _child = st.one_of(_leaf, _leafobj)
 # an object on which the lookups of the format grammar succeed
 _richobj = st.builds(
     lambda beh, x, y, k, call: ["o", dict(attrs=dict(x=x, y=y), items={"k": k, "0": k}, str=beh[0], repr=beh[1],
-                                          fmt=beh[2], call=call, getattr=beh[3], getitem=beh[4])],
-    _radix(_B, _B, _B, ["default", "raise"], ["default", "raise"]),
+                                          fmt=beh[2], call=call, getattr=beh[3], getitem=beh[4], klass=beh[5])],
+    _radix(_B, _B, _B, ["default", "raise"], ["default", "raise"], _KL),
     _child, st.one_of(_child, st.builds(lambda c: ["fn", c], st.one_of(st.just("raise"), _child))), _child,
     st.one_of(st.sampled_from(["none", "raise"]), _child))
 VALUE = st.one_of(_leaf, _leafobj, _richobj, _richobj,
@@ -609,7 +654,7 @@ LEVEL = st.one_of(
 )
 FAILURE = st.one_of(
     st.sampled_from(_NONE3), st.sampled_from(_NONE3),
-    st.sampled_from([["failure", k] for k in ("plain", "badstr", "badrepr", "unicode", "hostile")] +
+    st.sampled_from([["failure", k] for k in ("plain", "badstr", "badrepr", "unicode", "hostile", "noqual", "metabad")] +
                     [["fakefailure", k] for k in ("ok", "raise", "raise-badstr")] +
                     [["n"], ["s", "not a failure"], ["i", 0]]),
     _metaobj,
@@ -655,7 +700,7 @@ def _grid_cases():
         log_system=[bad, nontext, ["i", 1], ["b", b"\xff"], ["n"]],
         log_namespace=[bad, nontext, ["n"], ["i", 1]],
         log_level=[bad, ["s", "info"], ["lvl", bad], ["lvl", nontext], ["lvl", ["s", "x"]], ["level", "warn"], ["n"]],
-        log_failure=[["failure", k] for k in ("plain", "badstr", "badrepr", "unicode", "hostile")] +
+        log_failure=[["failure", k] for k in ("plain", "badstr", "badrepr", "unicode", "hostile", "noqual", "metabad")] +
                     [["fakefailure", k] for k in ("ok", "raise", "raise-badstr")] + [bad, ["n"], ["s", "x"]],
     )
     for field, values in odd.items():
@@ -673,7 +718,8 @@ def _grid_cases():
     # second one decides what the last-resort text has to cope with), new and legacy path
     for k1 in RAISES + ("bytes",):
         for k2 in RAISES + ("none", "ok"):
-            val = ["o", dict(str=k1, repr=k2, fmt=k1)]
+          for kl in (("ok", "attr", "raise") if k2 in ("raise", "raise-bad", "ok") else ("ok",)):
+            val = ["o", dict(str=k1, repr=k2, fmt=k1, klass=kl)]
             for fmt, lfmt in (("{a}", "%(a)s"), ("{a!r}", "%(a)r"), ("{a.x} {a}", "%s"), ("{b()}", "%(a")):
                 yield dict(base, fmt=["s", fmt], fields=[["a", val], ["b", ["fn", k1 if k1 in RAISES else "raise"]]],
                            meta=dict(empty), legacy=dict(fmt=["s", lfmt], msg=[], sys=val if k2 != "ok" else None, err=False, why=None))
